@@ -455,6 +455,64 @@ let run_reconnect (labels : string list) : string =
         | Some (s1, o) -> Stdlib.Buffer.add_string buf ("|" ^ show_state s1 ^ "#" ^ Stdlib.String.concat "," (Stdlib.List.map show o)); go s1 r (i + 1)) in
   go Reconnect.rl_init labels 0; Stdlib.Buffer.contents buf
 
+(* ---- C16 ---- *)
+let ble_kinds = [ "rr", Ble.KReadResp; "wr", Ble.KWriteResp; "nr", Ble.KNotifyResp; "ge", Ble.KGattError;
+                  "pr", Ble.KPairResp; "ur", Ble.KUnpairResp; "cc", Ble.KClearCacheResp; "nd", Ble.KNotifyData;
+                  "sv", Ble.KServices; "sd", Ble.KServicesDone ]
+let parse_bkind (w : string) : Ble.bkind = match w with
+  | "cn1" -> Ble.KConnection true | "cn0" | "cn" -> Ble.KConnection false
+  | _ -> (try Stdlib.List.assoc w ble_kinds with Not_found -> failwith ("bkind " ^ w))
+let show_bkind = function Ble.KConnection _ -> "cn" | k -> rassoc k ble_kinds
+let show_bmsg (m : Ble.bmsg) = Printf.sprintf "%s.%d.%d.%d" (match m.Ble.b_kind with Ble.KConnection c -> "cn" ^ b01 c | k -> show_bkind k)
+    (int_of_n m.Ble.b_addr) (int_of_n m.Ble.b_handle) (int_of_n m.Ble.b_data)
+let parse_rq = function "read" -> Ble.RqRead | "readdesc" -> Ble.RqReadDesc | "write" -> Ble.RqWrite | "writedesc" -> Ble.RqWriteDesc
+                      | w -> failwith ("rq " ^ w)
+let show_rq = function Ble.RqRead -> "read" | Ble.RqReadDesc -> "readdesc" | Ble.RqWrite -> "write" | Ble.RqWriteDesc -> "writedesc"
+                     | Ble.RqNotify e -> "notify" ^ b01 e | Ble.RqDevice t -> "dev" ^ string_of_z t | Ble.RqServices -> "services"
+let run_ble (evs : string list) : string =
+  let ni x = n_of_int (int_of_string x) and zi x = z_of_int (int_of_string x) in
+  let parse w = match Stdlib.String.split_on_char ':' w with
+    | ["m"; k; a; h; d] -> Ble.EMsg { Ble.b_kind = parse_bkind k; Ble.b_addr = ni a; Ble.b_handle = ni h; Ble.b_data = ni d }
+    | ["t"; t] -> Ble.ETime (zi t)
+    | ["e"] -> Ble.ETurnEnd
+    | ["c"; i] -> Ble.ECancel (nat_of_int (int_of_string i))
+    | ["u"; i] -> Ble.EUnsub (nat_of_int (int_of_string i))
+    | ["s"; i] -> Ble.EStopNotify (nat_of_int (int_of_string i))
+    | "o" :: i :: spec -> Ble.EStart (nat_of_int (int_of_string i), (match spec with
+        | ["h"; rq; resp; a; h; t] -> Ble.OpHandle (parse_rq rq, parse_bkind resp, ni a, ni h, zi t)
+        | ["w"; rq; a; h] -> Ble.OpWriteNoResponse (parse_rq rq, ni a, ni h)
+        | ["d"; rt; resp; a; t] -> Ble.OpDevice (zi rt, parse_bkind resp, ni a, zi t)
+        | ["x"; a; t] -> Ble.OpDisconnect (ni a, zi t)
+        | ["v"; a] -> Ble.OpServices (ni a)
+        | ["n"; a; h; t] -> Ble.OpNotify (ni a, ni h, zi t)
+        | ["k"; a; hc; ff; t; dt] -> Ble.OpConnect (ni a, hc = "1", ni ff, zi t, zi dt)
+        | _ -> failwith ("opspec " ^ w)))
+    | _ -> failwith ("bevent " ^ w) in
+  let show_outcome = function
+    | Ble.OResult m -> "result/" ^ show_bmsg m | Ble.OGattError m -> "gatterror/" ^ show_bmsg m
+    | Ble.OConnectionDropped m -> "dropped/" ^ show_bmsg m | Ble.OPending -> "pending" in
+  let show_result = function
+    | Ble.RMsg o -> show_outcome o
+    | Ble.RServices l -> "services/" ^ Stdlib.String.concat "." (Stdlib.List.map (fun x -> string_of_int (int_of_n x)) l)
+    | Ble.RSent -> "sent" | Ble.RReturned -> "returned" | Ble.RTimeout -> "timeout"
+    | Ble.RConnectTimeout b -> "connecttimeout/" ^ b01 b | Ble.RCancelled -> "cancelled" in
+  let show_obs (i, o) = string_of_int (int_of_nat i) ^ "=" ^ (match o with
+    | Ble.BWrite (rq, a, h) -> Printf.sprintf "W/%s.%d.%d" (show_rq rq) (int_of_n a) (int_of_n h)
+    | Ble.BDone r -> "D/" ^ show_result r
+    | Ble.BNotifyCb (h, d) -> Printf.sprintf "N/%d.%d" (int_of_n h) (int_of_n d)
+    | Ble.BStateCb m -> "S/" ^ show_bmsg m
+    | Ble.BUnsubscribed -> "U") in
+  let show_subs s =
+    let all = Stdlib.List.concat_map (fun (_, ks) -> Stdlib.List.map show_bkind ks) (Ble.all_subscriptions s) in
+    let names = Stdlib.List.sort_uniq compare all in
+    Stdlib.String.concat "," (Stdlib.List.map (fun n -> n ^ "=" ^ string_of_int (Stdlib.List.length (Stdlib.List.filter ((=) n) all))) names) in
+  let buf = Stdlib.Buffer.create 256 in
+  let rec go s = function
+    | [] -> ()
+    | w :: r -> let (s1, o) = Ble.bstep s (parse w) in
+      Stdlib.Buffer.add_string buf ("|" ^ Stdlib.String.concat "," (Stdlib.List.map show_obs o) ^ "#" ^ show_subs s1); go s1 r in
+  go Ble.bs_init evs; Stdlib.Buffer.contents buf
+
 let handle (line : string) : string =
   match words line with
   | "venc" :: v :: [] -> hex_of_bytes (Varint.enc (n_of_hex v))
@@ -488,6 +546,7 @@ let handle (line : string) : string =
      | Some l -> if l = [] then "-" else Stdlib.String.concat "," (Stdlib.List.map (fun (t, p) -> hex_of_n t ^ ":" ^ hex_of_bytes p) l))
   | "client" :: nz :: ex :: ka :: scr :: labels -> run_client (nz = "1") (ex = "1") (int_of_string ka) scr labels
   | "reconnect" :: labels -> run_reconnect labels
+  | "ble" :: evs -> run_ble evs
   | ["backoff"; n] -> string_of_z (Reconnect.backoff_seconds (z_of_string n))
   | "resolve" :: hosts -> run_resolve hosts
   | "zc" :: ops -> run_zc ops
